@@ -402,6 +402,24 @@ func (p c11) kinds(c *core.Ctx, k int) {
 			}
 			return false
 		}},
+		{"augment-action", "container t { leaf z { type string; } } augment \"/t\" { action g { " + iff + " } leaf other { type string; } }", func(m *meta.Module) bool {
+			for _, d := range m.DataDefinitions() {
+				if ct, ok := d.(*meta.Container); ok && ct.Ident() == "t" {
+					_, found := ct.Actions()["g"]
+					return found
+				}
+			}
+			return false
+		}},
+		{"augment-notification", "container t { leaf z { type string; } } augment \"/t\" { notification g { " + iff + " leaf e { type string; } } }", func(m *meta.Module) bool {
+			for _, d := range m.DataDefinitions() {
+				if ct, ok := d.(*meta.Container); ok && ct.Ident() == "t" {
+					_, found := ct.Notifications()["g"]
+					return found
+				}
+			}
+			return false
+		}},
 		{"uses-augment", "grouping gr { container t { leaf z { type string; } } } uses gr { augment t { " + iff + " leaf g { type string; } } }", func(m *meta.Module) bool {
 			for _, d := range m.DataDefinitions() {
 				if ct, ok := d.(*meta.Container); ok && ct.Ident() == "t" {
@@ -544,6 +562,9 @@ func (p c11) deviations(c *core.Ctx, k int) {
     leaf gle { type int32; must "k > 1"; must "k > 2"; units "m"; default "1"; } } }
   container ga { uses gl; }
   container gb { uses gl; }
+  leaf-list lld { type string; default "c"; default "a"; default "b"; }
+  choice ch2 { leaf ca { type string; } leaf cb { type string; } }
+  list li2 { key k; unique "u2 u1"; unique "u3 u1"; leaf k { type string; } leaf u1 { type string; } leaf u2 { type string; } leaf u3 { type string; } }
 `
 	type dev struct {
 		name    string
@@ -590,6 +611,10 @@ func (p c11) deviations(c *core.Ctx, k int) {
 		{"delete/both-musts", `deviation "/le" { deviate delete { must "a > 1"; must "b > 2"; } }`, []string{".children.2.musts"}, false},
 		{"delete/must+units", `deviation "/le" { deviate delete { must "b > 2"; units "m"; } }`, []string{".children.2.musts", ".children.2.units"}, false},
 		{"target-missing", `deviation "/nope" { deviate not-supported; }`, nil, true},
+		{"add/two-add-statements", `deviation "/plain" { deviate add { units "kg"; } deviate add { default "d"; } }`, []string{".children.3.units", ".children.3.default", ".children.3.has-default"}, false},
+		{"delete/one-default-of-leaf-list", `deviation "/lld" { deviate delete { default "a"; } }`, []string{".children.9.default"}, false},
+		{"add/default-on-choice", `deviation "/ch2" { deviate add { default "ca"; } }`, []string{".children.10.default", ".children.10.has-default"}, false},
+		{"delete/unique-keeps-order-of-others", `deviation "/li2" { deviate delete { unique "u3 u1"; } }`, []string{".children.11.unique"}, false},
 		{"multi/add+replace+delete", `deviation "/le" { deviate add { must "c > 3"; } deviate replace { units "cm"; } deviate delete { default "5"; } }`, []string{".children.2.musts", ".children.2.units", ".children.2.default", ".children.2.has-default"}, false},
 		{"multi/replace+delete", `deviation "/li" { deviate replace { max-elements 3; } deviate delete { unique "u1"; } }`, []string{".children.1.max", ".children.1.unique"}, false},
 	}
@@ -674,6 +699,14 @@ func (p c11) deviations(c *core.Ctx, k int) {
 	}
 	// specific value checks
 	switch d.name {
+	case "add/two-add-statements":
+		p.want(c, d.name, with, ".children.3.units", "kg")
+		p.want(c, d.name, with, ".children.3.default", "d")
+	case "delete/one-default-of-leaf-list":
+		p.want(c, d.name, with, ".children.9.default", "[c b]")
+	case "delete/unique-keeps-order-of-others":
+		p.want(c, d.name, with, ".children.11.unique.0.0", "u2")
+		p.want(c, d.name, with, ".children.11.unique.0.1", "u1")
 	case "replace/units":
 		p.want(c, d.name, with, ".children.2.units", "cm")
 	case "replace/default":
